@@ -68,8 +68,28 @@ func (e StopError) Error() string {
 	return e.err.Error()
 }
 
+// syntaxError stands in for a parser.ParseError. Rendering a ParseError renders every alternative the
+// parser tried once per nesting level of the grammar: for the two characters "/a" that takes minutes
+// and produces megabytes. The original stays reachable through Unwrap; the message is bounded.
+type syntaxError struct {
+	cause error
+	src   parser.Scanner
+}
+
+func (e syntaxError) Error() string {
+	text := e.src.String()
+	const limit = 200
+	if len(text) > limit {
+		text = text[:limit] + "..."
+	}
+	return fmt.Sprintf("syntax error in %s: %s", e.src.Filename(), text)
+}
+
+func (e syntaxError) Unwrap() error { return e.cause }
+
 // Parse parses input and returns the parsed Expr or an error.
 func (pc ParseContext) Parse(ctx context.Context, s *parser.Scanner) (ast.Branch, error) {
+	src := *s
 	rscopes := []rel.Scope{parseScopeFrom(ctx)}
 	//FIXME: create a cut error in wbnf so that deep import errors don't get thrown away
 	var deepImportError error
@@ -185,6 +205,10 @@ func (pc ParseContext) Parse(ctx context.Context, s *parser.Scanner) (ast.Branch
 		return nil, deepImportError
 	}
 	if err != nil {
+		switch err.(type) {
+		case parser.ParseError, parser.FatalError:
+			return nil, syntaxError{cause: err, src: src}
+		}
 		return nil, err
 	}
 	result := ast.FromParserNode(arraiParsers.Grammar(), v)
